@@ -603,3 +603,65 @@ func rulePlainIterator(c *Check, ruleFlag, ruleProject string) {
 		c.Ok(ruleFlag, name+"/delete-ignores-flag", "the projection's delete decision reads the entry's deleted flag", pos)
 	}
 }
+
+// ITER-NEXT-FAITHFUL (C02-R8, C01-R4, C18-R2): the snapshot iterators hand every
+// entry of the DBI message to the strategy, one per call: Next reads exactly one
+// entry with DBI.Next (after ResetCursor on the first call), remembers it as the
+// current entry, and returns its key; an error of DBI.Next (io.EOF at the end)
+// is returned as is. An iterator that skips or coalesces entries (e.g. repeated
+// keys) makes the merge result depend on which occurrence it kept instead of on
+// the timestamps.
+func ruleIterNextFaithful(c *Check, rule string) {
+	for _, name := range []string{"syncer.(*NativeIterator).Next", "syncer.(*PlainIterator).Next"} {
+		fn, paths := c.walkFn(rule, name, WalkConfig{})
+		if paths == nil {
+			continue
+		}
+		it := param(fn, 0)
+		n, bad := 0, 0
+		for i := range paths {
+			p := &paths[i]
+			if strings.HasPrefix(p.End, "backedge:") {
+				bad++
+				c.Bad(rule, name+"/one-entry-per-call", "Next loops over entries: an entry can be consumed without being handed to the strategy", c.pathPos(p), describe(c, p))
+				continue
+			}
+			if p.End != "return" || len(p.Rets) != 2 {
+				continue
+			}
+			n++
+			nx := callsOf(p, "snapshot.(*DBI).Next")
+			if len(nx) != 1 || !strings.HasPrefix(nx[0].Args[0], it+".") {
+				bad++
+				c.Bad(rule, name+"/one-entry-per-call", fmt.Sprintf("Next reads %d entries of the DBI message on this path, expected exactly one", len(nx)), c.pathPos(p), describe(c, p))
+				continue
+			}
+			ok, f := boolCond(p, "isnil("+nx[0].Res+"#1)", -1)
+			switch {
+			case f && !ok:
+				if p.Rets[1] != nx[0].Res+"#1" {
+					bad++
+					c.Bad(rule, name+"/error-as-is", "an error of DBI.Next (io.EOF at the end of the data) is not returned as is", c.pathPos(p), nil)
+				}
+			case f && ok:
+				stored := false
+				for _, e := range p.Events {
+					if e.Kind == "store" && strings.HasPrefix(e.Addr, "&"+it+".") && e.Val == nx[0].Res+"#0" {
+						stored = true
+					}
+				}
+				if !stored || p.Rets[0] != nx[0].Res+"#0.Key" || p.Rets[1] != "nil" {
+					bad++
+					c.Bad(rule, name+"/entry-is-current", "the entry just read is not remembered as the iterator's current entry and returned by its key", c.pathPos(p), describe(c, p))
+				}
+			default:
+				bad++
+				c.Bad(rule, name+"/error-tested", "the error of DBI.Next is not examined", c.pathPos(p), nil)
+			}
+		}
+		if bad == 0 {
+			c.Ok(rule, name+"/faithful", fmt.Sprintf("all %d paths read exactly one entry, remember it as current and return its key; errors (io.EOF) are returned as is", n), c.P.Pos(fn.Pos()))
+		}
+		c.Floor(rule, n, 2, "paths of "+name)
+	}
+}
